@@ -72,7 +72,45 @@ func Fixtures() []Fixture {
 		{Name: "F5-shared-edge-label-both-directions", Elems: []gmodel.Elem{
 			v("a", "P", map[string]any{"n": 1.0}), v("b", "Q", map[string]any{"n": 1.0}), v("c", "P", map[string]any{"n": 2.0}),
 			e("e1", "a", "b", "x", nil), e("e2", "b", "a", "x", nil), e("e3", "b", "c", "x", nil), e("e4", "c", "b", "y", nil)}},
+		// kvgraph honours the planner's "do not load" hint for edges only, so edges with properties (equal
+		// and different values, a parallel pair, one edge without data, two edge labels) get a fixture of their own
+		{Name: "F6-edge-properties", Elems: []gmodel.Elem{
+			v("a", "P", map[string]any{"w": 1.0}), v("b", "Q", map[string]any{"w": 2.0}), v("c", "P", nil),
+			e("e1", "a", "b", "x", map[string]any{"w": 1.0}), e("e2", "a", "c", "x", map[string]any{"w": 2.0}), e("e3", "b", "c", "y", map[string]any{"w": 1.0}),
+			e("e4", "c", "a", "x", nil), e("e5", "a", "b", "x", map[string]any{"w": 1.0})}},
 	}
+}
+
+// EdgeAlphabet is a 13-instance alphabet centred on edge rows, marks on them and every kind of step that
+// reads a property of the current or of a marked element; it is enumerated deeper than the full alphabet.
+func EdgeAlphabet() []refsem.Step {
+	return []refsem.Step{
+		st("outE"), st("inE"), st("out"), st("in"),
+		st("hasLabel", "x"), has(gripql.Eq("w", 1.0)), st("hasKey", "w"),
+		st("as", "m1"), st("select", "m1"),
+		st("distinct", "$m1.w"), has(gripql.Eq("$m1.w", 1.0)), st("distinct", "w"),
+		st("count"),
+	}
+}
+
+// EdgePrograms enumerates the well-typed programs over EdgeAlphabet with the starts V(), E(), V(a) up to maxLen.
+func EdgePrograms(maxLen int) [][]refsem.Step {
+	var out [][]refsem.Step
+	level := [][]refsem.Step{{st("V")}, {st("E")}, {st("V", "a")}}
+	for l := 2; l <= maxLen; l++ {
+		var next [][]refsem.Step
+		for _, p := range level {
+			for _, s := range EdgeAlphabet() {
+				np := append(append([]refsem.Step{}, p...), s)
+				if ty, _, _ := refsem.TypeOf(np); ty == refsem.WellTyped {
+					next = append(next, np)
+				}
+			}
+		}
+		out = append(out, next...)
+		level = next
+	}
+	return out
 }
 
 func st(op string, strs ...string) refsem.Step { return refsem.Step{Op: op, Strs: strs} }
